@@ -1365,6 +1365,9 @@ struct SrcCfg {
 	hostile_material: bool,
 	/// big world whose archive header commits to EXACTLY 1024 outputs (the last bitmap chunk is full)
 	boundary: bool,
+	/// big world in which everything older than six blocks is spent: at the archive header the first bitmap chunk
+	/// (outputs 0..1023, the genesis output included) is entirely zero and the second is not
+	dense: bool,
 	/// (C01, forged source) kind of value-creating / unproven element the chain's HEADERS commit to: 0 = the genesis
 	/// output (leaf 0) carries another output's range proof, 1 = two range proofs swapped inside block 5, 2 = a kernel
 	/// of block 5 carries another kernel's signature. The forged block is installed behind the pipeline.
@@ -1557,11 +1560,13 @@ fn install_behind_pipeline(chain: &Chain, b: &grin_core::core::Block) -> Result<
 
 /// Big world: block i >= 5 spends the coinbase of block i-4 into 9 outputs, block i >= 12
 /// also spends two of the outputs of block i-6; all proofs are built in parallel.
-fn build_big_world(seed: u64, n_blocks: u64, boundary: bool) -> WorldB {
+fn build_big_world(seed: u64, n_blocks: u64, boundary: bool, dense: bool) -> WorldB {
 	use std::sync::atomic::{AtomicU64, Ordering};
 	// outputs of the big transaction of block i
 	let outs_of = move |i: u64| -> usize {
-		if !boundary {
+		if dense {
+			8
+		} else if !boundary {
 			9
 		} else if i < 5 + 72 {
 			8
@@ -1573,7 +1578,8 @@ fn build_big_world(seed: u64, n_blocks: u64, boundary: bool) -> WorldB {
 	let w = h.world.clone();
 	let reward = grin_core::consensus::REWARD;
 	let fee1 = |i: u64| -> u64 { if i >= 5 { 1_000_000 * (1 + (i % 3)) } else { 0 } };
-	let fee2 = |i: u64| -> u64 { if i >= 12 { 2_000_000 } else { 0 } };
+	let fee2 = move |i: u64| -> u64 { if i >= 12 || (dense && i >= 11) { 2_000_000 } else { 0 } };
+	let fee2d = fee2;
 	let cb_key = |i: u64| w.key(10_000 + i as u32);
 	let out_key = |i: u64, j: usize| w.key(100_000 + (i as u32) * 16 + j as u32);
 	let cb_val = |i: u64| reward + fee1(i) + fee2(i);
@@ -1588,6 +1594,17 @@ fn build_big_world(seed: u64, n_blocks: u64, boundary: bool) -> WorldB {
 			each
 		}
 	};
+	let (_, gcoin) = w.genesis();
+	let mut merged_val: Vec<u64> = vec![0; n_blocks as usize + 1];
+	if dense {
+		for i in 11..=n_blocks {
+			let mut v: u64 = (0..outs_of(i - 6)).map(|j| out_val(i - 6, j)).sum();
+			v += if i >= 12 { merged_val[(i - 1) as usize] } else { gcoin.value };
+			merged_val[i as usize] = v - fee2(i);
+		}
+	}
+	let merged_val = &merged_val;
+	let gcoin = &gcoin;
 	let next = AtomicU64::new(1);
 	type Built = (Vec<Transaction>, (grin_core::core::Output, TxKernel));
 	let built = std::sync::Mutex::new(HashMap::<u64, Built>::new());
@@ -1607,7 +1624,16 @@ fn build_big_world(seed: u64, n_blocks: u64, boundary: bool) -> WorldB {
 						let outs: Vec<(u64, grin_keychain::Identifier)> = (0..outs_of(i)).map(|j| (out_val(i, j), out_key(i, j))).collect();
 						txs.push(w.tx(&mut p, &[inp], &outs, KernelFeatures::Plain { fee: fee_fields(fee1(i)) }).0);
 					}
-					if i >= 12 {
+					if dense && i >= 11 {
+						// everything block i-6 created, the merged output of block i-1 and (once) the genesis output
+						let mut ins: Vec<Coin> = (0..outs_of(i - 6)).map(|j| w.coin(out_val(i - 6, j), &out_key(i - 6, j), false)).collect();
+						if i >= 12 {
+							ins.push(w.coin(merged_val[(i - 1) as usize], &out_key(i - 1, 10), false));
+						} else {
+							ins.push(gcoin.clone());
+						}
+						txs.push(w.tx(&mut p, &ins, &[(merged_val[i as usize], out_key(i, 10))], KernelFeatures::Plain { fee: fee_fields(fee2d(i)) }).0);
+					} else if !dense && i >= 12 {
 						let a = w.coin(out_val(i - 6, 0), &out_key(i - 6, 0), false);
 						let b = w.coin(out_val(i - 6, 1), &out_key(i - 6, 1), false);
 						let v = a.value + b.value - fee2(i);
@@ -1638,7 +1664,10 @@ fn build_big_world(seed: u64, n_blocks: u64, boundary: bool) -> WorldB {
 				h.coins.insert(c.commit.0.to_vec(), c);
 			}
 		}
-		if i >= 12 {
+		if dense && i >= 11 {
+			let c = w.coin(merged_val[i as usize], &out_key(i, 10), false);
+			h.coins.insert(c.commit.0.to_vec(), c);
+		} else if !dense && i >= 12 {
 			let v = out_val(i - 6, 0) + out_val(i - 6, 1) - fee2(i);
 			let c = w.coin(v, &out_key(i, 10), false);
 			h.coins.insert(c.commit.0.to_vec(), c);
@@ -1778,7 +1807,7 @@ fn build_source(run: &Run, sc: &Scratch, cfg: &SrcCfg) -> Result<Source, String>
 		}
 		w
 	} else if cfg.big {
-		build_big_world(wseed, cfg.n_blocks, cfg.boundary)
+		build_big_world(wseed, cfg.n_blocks, cfg.boundary, cfg.dense)
 	} else {
 		build_world(wseed, cfg.n_blocks, cfg.shard as u64)
 	};
@@ -1850,6 +1879,12 @@ fn build_source(run: &Run, sc: &Scratch, cfg: &SrcCfg) -> Result<Source, String>
 		}
 	}
 	let uidx = st_a.unspent_idx();
+	if cfg.dense {
+		if uidx.first().map(|&i| i < 1024).unwrap_or(true) || st_a.outs.len() <= 1024 {
+			return Err(format!("dense world: first unspent output index {:?} of {} outputs (the first bitmap chunk should be all zero)", uidx.first(), st_a.outs.len()));
+		}
+		run.count("b.sources_whose_first_bitmap_chunk_is_all_zero", 1);
+	}
 	let bm_ref: Bitmap = uidx.iter().map(|&i| i as u32).collect();
 	let any_spent = (uidx.len() as u64) < st_a.outs.len() as u64;
 	let state_class = if compacted {
@@ -2739,6 +2774,9 @@ fn segment_sync(run: &Run, sc: &Scratch, src: &Source, set: &SegSet, pool: &Host
 			if src.cfg.boundary {
 				run.count("b.full_state_syncs_with_exactly_1024_outputs_at_the_archive_header", 1);
 			}
+			if src.cfg.dense {
+				run.count("b.full_state_syncs_with_an_all_zero_first_bitmap_chunk", 1);
+			}
 			if set.output.len() >= 2 && set.rproof.len() >= 2 && set.kernel.len() >= 2 {
 				run.count("b.full_state_syncs_multi_segment", 1);
 			}
@@ -3147,22 +3185,27 @@ fn src_cfg(run: &Run, shard: usize, san: bool) -> SrcCfg {
 	let hsel = [(0u8, 2u8, 2u8, 2u8), (0, 3, 2, 4), (0, 2, 4, 3), (0, 4, 3, 2), (0, 3, 3, 3), (0, 2, 3, 2)];
 	let hts = hsel[(shard + (run.seed % 6) as usize) % hsel.len()];
 	if san {
-		return SrcCfg { shard, n_blocks: 45, compact_at: None, hts, big: false, hostile_material: false, boundary: false, forged: None };
+		return SrcCfg { shard, n_blocks: 45, compact_at: None, hts, big: false, hostile_material: false, boundary: false, dense: false, forged: None };
 	}
 	let compacted = shard % 13 == 0 || (thorough && shard % 13 == 1);
 	let big = thorough && shard == 3;
 	if big {
 		// archive header at 110: 1 + 110 + 9*106 + 99 = 1164 outputs (two bitmap chunks)
-		return SrcCfg { shard, n_blocks: 131, compact_at: None, hts: (0, 6, 5, 6), big: true, hostile_material: false, boundary: false, forged: None };
+		return SrcCfg { shard, n_blocks: 131, compact_at: None, hts: (0, 6, 5, 6), big: true, hostile_material: false, boundary: false, dense: false, forged: None };
 	}
 	if shard == 5 {
 		// archive header at 110: 1 + 110 + (72*8 + 34*7) + 99 = 1024 outputs exactly
-		return SrcCfg { shard, n_blocks: 131, compact_at: None, hts: (0, 6, 5, 6), big: true, hostile_material: false, boundary: true, forged: None };
+		return SrcCfg { shard, n_blocks: 131, compact_at: None, hts: (0, 6, 5, 6), big: true, hostile_material: false, boundary: true, dense: false, forged: None };
+	}
+	if shard == 6 {
+		// archive header at 120: 1159 outputs, everything below index 1099 spent (an all-zero bitmap chunk in front of
+		// a non-zero one); 8 outputs per big transaction keep the blocks within the test weight limit
+		return SrcCfg { shard, n_blocks: 141, compact_at: if run.seed % 2 == 0 { Some(131) } else { None }, hts: (0, 6, 5, 6), big: true, hostile_material: false, boundary: false, dense: true, forged: None };
 	}
 	if compacted {
 		let hc = 82 + p.below(8);
 		let n = hc + 9 + p.below(6);
-		return SrcCfg { shard, n_blocks: n, compact_at: Some(hc), hts, big: false, hostile_material: shard % 2 == 1, boundary: false, forged: None };
+		return SrcCfg { shard, n_blocks: n, compact_at: Some(hc), hts, big: false, hostile_material: shard % 2 == 1, boundary: false, dense: false, forged: None };
 	}
 	SrcCfg {
 		shard,
@@ -3172,6 +3215,7 @@ fn src_cfg(run: &Run, shard: usize, san: bool) -> SrcCfg {
 		big: false,
 		hostile_material: shard % 2 == 1,
 		boundary: false,
+		dense: false,
 		forged: None,
 	}
 }
@@ -3343,7 +3387,7 @@ fn chain_source(run: &Run, shard: usize, san: bool, budget: f64) {
 		if n >= 3 && left < est * 1.3 {
 			break;
 		}
-		if n >= run.tier.pick(10, 16) || (san && n >= 3) || (cfg.big && n >= 4) || (cfg.boundary && n >= run.tier.pick(2, 4)) {
+		if n >= run.tier.pick(10, 16) || (san && n >= 3) || (cfg.big && n >= 4) || ((cfg.boundary || cfg.dense) && n >= run.tier.pick(2, 4)) {
 			break;
 		}
 		let t = Instant::now();
@@ -3413,6 +3457,7 @@ fn forged_source(run: &Run, id: usize) {
 		big: false,
 		hostile_material: false,
 		boundary: false,
+		dense: false,
 		forged: Some(kind),
 	};
 	let replay = json!({"part": "forged_source", "id": id, "kind": kname, "blocks": cfg.n_blocks, "heights": format!("{:?}", cfg.hts),
@@ -3634,6 +3679,11 @@ fn main() {
 		run.require("b.sources.compacted", run.counter("b.sources.compacted"), q(1, 2));
 		run.require("c.hostile_pieces_refused", run.counter("c.hostile_pieces_refused"), q(100, 600));
 		run.require("c.hostile_syncs_ending_right", run.counter("c.hostile_syncs_ending_right"), q(2, 10));
+		run.require(
+			"state sync from segments for an archive header whose first 1024 outputs are all spent (all-zero bitmap chunk before a non-zero one)",
+			run.counter("b.full_state_syncs_with_an_all_zero_first_bitmap_chunk"),
+			1,
+		);
 		run.require(
 			"state sync from segments for an archive header with exactly 1024 outputs (full last bitmap chunk)",
 			run.counter("b.full_state_syncs_with_exactly_1024_outputs_at_the_archive_header"),
